@@ -540,8 +540,8 @@ def rule_round2(ctx: Ctx) -> None:
         last = [n_ for n_ in p_.nodes if n_.kind == "stmt"]
         if last and isinstance(last[-1].ast, ast.Return) and isinstance(last[-1].ast.value, ast.Call):
             continue
-        if p_.end == "raise":
-            continue
+        if p_.end != "exit":
+            continue  # raise; or a prefix cut at a loop back-edge (the entity search may be written inline) — its continuations are enumerated
         if not any(k[0] == "is" and k[2] == "None" for k in p_.facts):
             bad.append(f"no comparison on the path [{p_.describe()}]")
     # ... and no condition of the function decides by truthiness: an entity with __len__/__bool__ (a queue, a buffer) or a reading of 0
